@@ -124,6 +124,15 @@ def clen(t, depth=0):
         rb = range_bounds(t[2], t[1], depth + 1)
         if rb is not None:
             return padd(rb[1], rb[0], -1)
+    if k == 'const' and isinstance(t[1], (bytes, bytearray, str)):
+        return const(len(t[1]))
+    if k == 'call' and t[1].split('::')[-1] in ('to_vec', 'to_owned', 'into_vec', 'as_slice', 'as_ref', 'deref', 'borrow', 'as_mut', 'deref_mut', 'as_bytes_slice') and len(t[2]) == 1:
+        return clen(t[2][0], depth + 1)
+    if k == 'call' and ENGINE is not None and t[1] in ENGINE.facts.fn and depth < 20:
+        # a crate helper returning a collection: its (success) value
+        t1 = ENGINE.expand(t)
+        if t1 is not t:
+            return clen(t1, depth + 1)
     if k == 'call':
         m = re.search(r'<impl (u|i)(8|16|32|64|128)>::to_(le|be|ne)_bytes$', t[1])
         if m:
